@@ -32,6 +32,24 @@ static void on_alarm(int) {
         }
     } else { wd_last = p; wd_same = 0; }
 }
+// ---------------------------------------------------------------- SIGSEGV on an alternate stack (builds without ASan)
+static void on_segv(int sig) {
+    const char m[] = "SIM-SEGV: fatal signal (stack exhaustion or wild access)\n";
+    if(write(2, m, sizeof(m) - 1)) {}
+    (void)sig;
+    _exit(79);
+}
+void sim_install_altstack() {
+#if !defined(__SANITIZE_ADDRESS__)
+    static __thread char *alt;
+    if(!alt) alt = (char *)malloc(65536);
+    stack_t ss; ss.ss_sp = alt; ss.ss_size = 65536; ss.ss_flags = 0;
+    sigaltstack(&ss, 0);
+    struct sigaction sa; memset(&sa, 0, sizeof sa);
+    sa.sa_handler = on_segv; sa.sa_flags = SA_ONSTACK;
+    sigaction(SIGSEGV, &sa, 0); sigaction(SIGBUS, &sa, 0);
+#endif
+}
 static void watchdog_start() {
     struct sigaction sa; memset(&sa, 0, sizeof sa);
     sa.sa_handler = on_alarm; sa.sa_flags = SA_RESTART;
@@ -163,6 +181,7 @@ int main(int argc, char **argv) {
     }
     if(!status.empty()) status_open(status.c_str());
     watchdog_start();
+    sim_install_altstack();
 
     if(!replay.empty()) {
         Plan p; std::string err;
